@@ -164,14 +164,34 @@ func init() {
 		st.heap["HAcc"] = ex.define(st, "HAcc", Store(st.heap["HAcc"], h, acc))
 		return SV{K: KTuple, Tuple: []SV{Scalar(a[1].Len), Scalar(T(SErr, "nilErr"))}}
 	})
-	regDep("invoke hash.Hash.Sum", []string{"BMem", "next"}, "h.Sum(nil): fresh 32-byte slice = SHA-256(accumulator) for a sha256.New() hasher (sha256 uninterpreted)", func(ex *Exec, st *State, c *ssa.Call, a []SV) SV {
+	regDep("invoke hash.Hash.Sum", []string{"BMem", "next"}, "h.Sum(b): appends SHA-256(accumulator) (sha256 uninterpreted; hasher from sha256.New) to b: for b == nil a fresh 32-byte slice; otherwise in place when cap(b)-len(b) >= 32 (b's backing array is written), else a fresh slice", func(ex *Exec, st *State, c *ssa.Call, a []SV) SV {
 		h := a[0].T
 		ex.notNil(st, h, c, "hash.Hash")
-		ex.safety(st, "sum-nil-arg", Eq(a[1].Len, IntLit(0)), c, "Sum(b) with non-empty b is outside the contract")
 		ex.oblige(st, "dep", fmt.Sprintf("sha256-hasher@%s", ex.posOf(c)), Eq(Select(st.heap["HKind"], h), IntLit(256)), nil, c, "hasher must come from sha256.New")
 		st.assume(Eq(Select(st.heap["HKind"], h), IntLit(256)))
 		d := App(SBytes, "f_sha256", Select(st.heap["HAcc"], h))
-		return ex.newByteSlice(st, d, IntLit(32))
+		b := a[1]
+		if b.Ref.S == "0" && b.Len.S == "0" && b.Cap.S == "0" {
+			return ex.newByteSlice(st, d, IntLit(32))
+		}
+		// general case: append semantics
+		newLen := ex.define(st, "sumlen", Add(b.Len, IntLit(32)))
+		content := ex.define(st, "sumcontent", App(SBytes, "f_bcat", ex.sliceBytes(st, b), d))
+		fits := ex.fresh("sum_fits", SBool)
+		st.assume(Eq(fits, Le(newLen, b.Cap)))
+		old := Select(st.heap["BMem"], b.Ref)
+		r := ex.allocRef(st)
+		ncap := ex.fresh("sumcap", SInt)
+		st.assume(Ge(ncap, newLen))
+		full := ex.fresh("bytes", SBytes)
+		st.assume(Eq(App(SInt, "f_blen", full), ncap))
+		st.assume(Eq(App(SBytes, "f_bsub", full, IntLit(0), newLen), content))
+		nm := ex.fresh("bytes", SBytes)
+		st.assume(Eq(App(SInt, "f_blen", nm), App(SInt, "f_blen", old)))
+		st.assume(Eq(App(SBytes, "f_bsub", nm, b.Off, newLen), content))
+		m1 := Store(st.heap["BMem"], r, full)
+		st.heap["BMem"] = ex.define(st, "BMem", Store(m1, b.Ref, Ite(fits, nm, Select(m1, b.Ref))))
+		return SV{K: KSlice, Elem: "byte", Ref: ex.define(st, "sumref", Ite(fits, b.Ref, r)), Off: ex.define(st, "sumoff", Ite(fits, b.Off, IntLit(0))), Len: newLen, Cap: ex.define(st, "sumcap2", Ite(fits, b.Cap, ncap))}
 	})
 
 	// io
